@@ -88,6 +88,9 @@ theorem cubic_between (hx : StrictInc N x) {j : Nat} (hj : j + 1 < N)
 theorem dyEdge_const (h0 h1 m : Rat) : dyEdge h0 h1 m m = m := by
   have hp : pEdge h0 h1 m m = m := by unfold pEdge; ring
   unfold dyEdge; rw [hp]
+  simp only [K.limEdgeS, K.limEdgeP, one_mul]
+  have e : (1 / 2 : Rat) * rabs m = rabs m / 2 := by ring
+  rw [e]
   have hmin : rmin (rabs m) (rabs m / 2) = rabs m / 2 := by
     have := rabs_nonneg m
     unfold rmin; split
@@ -98,6 +101,7 @@ theorem dyEdge_const (h0 h1 m : Rat) : dyEdge h0 h1 m m = m := by
 theorem dyInterior_const {hm h : Rat} (hne : hm + h ≠ 0) (m : Rat) : dyInterior hm h m m = m := by
   have hp : pInterior hm h m m = m := by unfold pInterior; field_simp; ring
   unfold dyInterior; rw [hp]
+  simp only [K.limIntP, K.limIntPDiv, K.limIntS, K.limIntSm, one_mul]
   have hmin : rmin (rabs m / 2) (rmin (rabs m) (rabs m)) = rabs m / 2 := by
     have := rabs_nonneg m
     have hin : rmin (rabs m) (rabs m) = rabs m := by unfold rmin; split <;> rfl
